@@ -20,7 +20,7 @@ void verif_abort(char *msg) { __CPROVER_assume(0); }
 
 int xerbla_(char *s, int *i) { g_xerbla_arg = *i; g_xerbla_calls++; return 0; }
 int lsame_(char *a, char *b) { char x = *a, y = *b; if (x >= 'a' && x <= 'z') x -= 32; if (y >= 'a' && y <= 'z') y -= 32; return x == y; }
-@R@ @r@lamch_(char *c) {
+double @r@lamch_(char *c) {
   /* values of the IEEE format; the real ?lamch is executed in unit lamch (C11) */
   if (*c == 'E' || *c == 'e') return LAMCH_EPS;
   if (*c == 'S' || *c == 's') return LAMCH_SFMIN;
